@@ -202,6 +202,7 @@ contract(f"{CR}::PythonCryptoEndpoint.send_cell", "send_cell.does-not-refresh-li
 
 # reclaiming an exit entry releases BOTH outside sockets (shared with C11)
 exit_socket_close_contract()
+exit_socket_enable_contract()     # an opened transport is on the object before the next suspension point: reclaimable at any moment
 
 # the relay_early budget (what bounds how long a circuit can be made through this relay) is counted and enforced on the SAME route entry:
 # the one the cell is forwarded on.  Checked at the receive entry point, so it holds wherever the test sits (process_cell or relay_cell).
